@@ -3,6 +3,8 @@ import LdkModel.Proofs.Codec
 import LdkModel.Generated.MsgSchemas
 import LdkModel.Model.MsgSchemasHand
 import LdkModel.Generated.WireTypes
+import LdkModel.Model.MsgCustom
+import LdkModel.Proofs.MsgCustom
 /-!
   C13 — peer messages round-trip through the wire format and decoding is total.
 
@@ -99,7 +101,8 @@ theorem coverage_pinned :
     notCovered.map (·.1) = ["TxSignatures", "RevokeAndACK"] ∧
     Hand.handSchemas.map (·.name) = ["OpenChannel", "AcceptChannel", "OpenChannelV2", "AcceptChannelV2"] ∧
     Hand.tailSchemas.map (·.name) = ["UnsignedChannelAnnouncement", "ChannelAnnouncement", "UnsignedChannelUpdate", "ChannelUpdate"] ∧
-    Hand.customNames = ["ErrorMessage", "WarningMessage", "Ping", "Pong"] := by
+    Hand.customNames = ["ErrorMessage", "WarningMessage", "Ping", "Pong"] ∧
+    Custom.customNames = ["UnsignedNodeAnnouncement", "NodeAnnouncement", "QueryShortChannelIds", "ReplyChannelRange", "Init"] := by
   decide
 
 /-- the round trip, instantiated for every message schema translated from msgs.rs -/
@@ -377,6 +380,273 @@ theorem pong_roundtrip (byteslen : Nat) (hb : byteslen < 2 ^ 16) (rest : Bytes) 
 example : Hand.decodePing [0, 5, 0, 2, 9, 9, 1] = .ok (5, 2) := by decide   -- padding content ignored, trailing byte not read
 example : Hand.decodePing [0, 5, 0, 3, 9, 9] = .error .ShortRead := by decide
 example : Hand.encodePing 5 2 = [0, 5, 0, 2, 0, 0] := by decide
+
+/-! ## custom hand-written codecs (Model/MsgCustom.lean): SocketAddress, (Unsigned)NodeAnnouncement, QueryShortChannelIds, ReplyChannelRange
+
+  The arithmetic / comparisons of the Rust reader and writer bodies are TRANSLATED on every run (`Gen.nodeAnn*`, `Gen.*Rules`,
+  `Gen.sockAddrKinds`); the theorems below are about the decoders that call those definitions, so they are re-proved against what
+  the source says now.  `kinds` is always the extracted table; `hdr` ranges over the header field lists (`hdrOk`). -/
+
+/-- the SocketAddress table extracted from the source is consistent: type bytes distinct and < 256, every constant of
+    `SocketAddress::len` is the value-independent byte count of the variant's fields, `hostname.len()` is added exactly for the
+    variant with a hostname.  Breaks when a `len` constant / a field width / a type byte changes on one side only. -/
+theorem sockaddr_kinds_wf : kindsWf sockAddrKinds = true := by decide
+
+/-- the hand-written header field lists ARE what the reader bodies read before the variable part -/
+theorem custom_headers_match_source :
+    Custom.nodeAnnHeaderNames.zip Custom.nodeAnnHeader = nodeAnnHeaderPinned ∧
+    Custom.queryScidHeaderNames.zip Custom.queryScidHeader = queryShortChannelIdsHeaderPinned ∧
+    Custom.replyRangeHeaderNames.zip Custom.replyRangeHeader = replyChannelRangeHeaderPinned := by decide
+
+/-- … and they satisfy the shape conditions of the theorems below -/
+theorem custom_headers_ok :
+    Custom.hdrOk Custom.nodeAnnHeader = true ∧ Custom.hdrOk Custom.nodeAnnSignedHeader = true ∧
+    Custom.hdrOk Custom.queryScidHeader = true ∧ Custom.hdrOk Custom.replyRangeHeader = true := by decide
+
+/-- `SocketAddress::len()` + 1 (the type byte "not recorded") is exactly the number of bytes `write` emits, for every address -/
+theorem sockaddr_len_is_encoded_length (a : SockAddr) (hv : a.valid sockAddrKinds = true) :
+    (a.encode sockAddrKinds).length = 1 + a.len sockAddrKinds := addr_encode_length sockaddr_kinds_wf a hv
+
+/-- every address of every kind round-trips, whatever follows it -/
+theorem sockaddr_roundtrip (a : SockAddr) (r : Bytes) (hv : a.valid sockAddrKinds = true) :
+    decodeAddrResult sockAddrKinds (a.encode sockAddrKinds ++ r) = .ok (.inl a, r) ∧
+    decodeAddr sockAddrKinds (a.encode sockAddrKinds ++ r) = .ok (a, r) := by
+  have h := addr_roundtrip sockaddr_kinds_wf a r hv
+  exact ⟨h, by simp [decodeAddr, h]⟩
+
+/-- a decoded address is valid, and what was consumed is exactly its encoding: the decoder reads the descriptor's own bytes, no more -/
+theorem sockaddr_decode_canonical (b : Bytes) (a : SockAddr) (r : Bytes) (h : decodeAddrResult sockAddrKinds b = .ok (.inl a, r)) :
+    b = a.encode sockAddrKinds ++ r ∧ a.valid sockAddrKinds = true := addr_decode_exact h
+
+/-- a byte that is no known descriptor type: `Result<SocketAddress, u8>` hands it back having consumed nothing else;
+    `SocketAddress::read` (the TLV of `init`) answers UnknownVersion -/
+theorem sockaddr_unknown_type (x : UInt8) (r : Bytes) (h : findKind sockAddrKinds x.toNat = none) :
+    decodeAddrResult sockAddrKinds (x :: r) = .ok (.inr x, r) ∧ decodeAddr sockAddrKinds (x :: r) = .error .UnknownVersion := by
+  have h1 := addr_unknown_result sockAddrKinds x r h
+  exact ⟨h1, by simp [decodeAddr, h1]⟩
+example : decodeAddr sockAddrKinds [1, 10, 0, 0, 1, 0x26, 0x07, 9] = .ok (⟨1, [.bytes [10, 0, 0, 1], .nat 9735]⟩, [9]) := by decide
+example : decodeAddr sockAddrKinds [5, 2, 0x61, 0x2e, 0, 80] = .ok (⟨5, [.bytes [0x61, 0x2e], .nat 80]⟩, []) := by decide
+example : decodeAddr sockAddrKinds [5, 2, 0x61, 0x20, 0, 80] = .error .InvalidValue := by decide      -- ' ' in a hostname
+example : decodeAddr sockAddrKinds [6, 1, 2] = .error .UnknownVersion := by decide
+example : decodeAddr sockAddrKinds [4, 1, 2] = .error .ShortRead := by decide
+
+/-- decode ∘ encode = id on every well-formed (Unsigned)NodeAnnouncement (`NodeAnn.wf`) -/
+theorem node_ann_roundtrip (hdr : List FieldTy) (hh : Custom.hdrOk hdr = true) (m : Custom.NodeAnn)
+    (hm : m.wf sockAddrKinds hdr = true) :
+    Custom.decodeNodeAnn sockAddrKinds hdr (Custom.encodeNodeAnn sockAddrKinds hdr m) = .ok m :=
+  Custom.nodeAnn_roundtrip' sockaddr_kinds_wf hdr hh m hm
+
+/-- the decoder accepts ONLY canonical encodings of well-formed values: whatever byte string decodes IS the encoding of the
+    message it decodes to — every byte of the input is accounted for, exactly once -/
+theorem node_ann_decode_canonical (hdr : List FieldTy) (hh : Custom.hdrOk hdr = true) (b : Bytes) (m : Custom.NodeAnn)
+    (h : Custom.decodeNodeAnn sockAddrKinds hdr b = .ok m) :
+    Custom.encodeNodeAnn sockAddrKinds hdr m = b ∧ m.wf sockAddrKinds hdr = true :=
+  Custom.nodeAnn_canonical' sockaddr_kinds_wf hdr hh b m h
+
+/-- re-encoding any successfully decoded announcement yields bytes that decode to the same announcement -/
+theorem node_ann_reencode_stable (hdr : List FieldTy) (hh : Custom.hdrOk hdr = true) (b : Bytes) (m : Custom.NodeAnn)
+    (h : Custom.decodeNodeAnn sockAddrKinds hdr b = .ok m) :
+    Custom.decodeNodeAnn sockAddrKinds hdr (Custom.encodeNodeAnn sockAddrKinds hdr m) = .ok m :=
+  node_ann_roundtrip hdr hh m (node_ann_decode_canonical hdr hh b m h).2
+
+/-- the decoder consumes exactly the declared length: in an accepted message the address descriptors and the excess address data
+    occupy exactly `addrlen` bytes (the u16 after the header), and `excess_data` is everything after them -/
+theorem node_ann_declared_length_exact (hdr : List FieldTy) (hh : Custom.hdrOk hdr = true) (b : Bytes) (m : Custom.NodeAnn)
+    (h : Custom.decodeNodeAnn sockAddrKinds hdr b = .ok m) :
+    ∃ L, L < 2 ^ 16 ∧ (Custom.encodeAddrs sockAddrKinds m.addresses ++ m.excessAddr).length = L ∧
+      b = encodeFixed hdr m.hdr ++ (beEncode 2 L ++ (Custom.encodeAddrs sockAddrKinds m.addresses ++ (m.excessAddr ++ m.excess))) := by
+  obtain ⟨e, hw⟩ := node_ann_decode_canonical hdr hh b m h
+  obtain ⟨_, h2, h3, _⟩ := Custom.nodeAnn_wf_parts hw
+  refine ⟨Custom.regionLen sockAddrKinds m.addresses + m.excessAddr.length, h3, by simp [Custom.encodeAddrs_length], ?_⟩
+  rw [← e, Custom.encodeNodeAnn, Custom.writeAddrLen_eq sockaddr_kinds_wf _ _ h2]
+  simp [nodeAnnWriteTotal]
+
+/-- OVER-RUN: a descriptor that starts inside the declared address region but ends after it — by however little — is rejected with
+    BadLengthDescriptor, whatever precedes it (any well-formed descriptors) and whatever follows (the decoder does not read an
+    address past the declared length) -/
+theorem node_ann_overrun_rejected (hdr : List FieldTy) (hh : Custom.hdrOk hdr = true) (hv : List Val) (hvv : validFixed hdr hv = true)
+    (as : List SockAddr) (a : SockAddr) (L : Nat) (rest : Bytes)
+    (has : ∀ x ∈ as, x.valid sockAddrKinds = true) (ha : a.valid sockAddrKinds = true) (hL : L < 2 ^ 16)
+    (hin : Custom.regionLen sockAddrKinds as < L) (hout : L < Custom.regionLen sockAddrKinds as + (a.encode sockAddrKinds).length) :
+    Custom.decodeNodeAnn sockAddrKinds hdr
+      (encodeFixed hdr hv ++ (beEncode 2 L ++ (Custom.encodeAddrs sockAddrKinds as ++ (a.encode sockAddrKinds ++ rest)))) =
+      .error .BadLengthDescriptor := by
+  obtain ⟨p1, _, _⟩ := Custom.hdrOk_parts hh
+  have hlen := Custom.length_le_regionLen as has
+  have hel := Custom.encodeAddrs_length sockAddrKinds as
+  simp only [Custom.decodeNodeAnn, decodeFixed_roundtrip hdr hv _ p1 hvv, readUint_encode, Nat.mod_eq_of_lt (show L < 256 ^ 2 by omega)]
+  have hfuel : (Custom.encodeAddrs sockAddrKinds as ++ (a.encode sockAddrKinds ++ rest)).length + 1 =
+      as.length + ((Custom.regionLen sockAddrKinds as - as.length + (a.encode sockAddrKinds ++ rest).length) + 1) := by
+    simp only [List.length_append, hel]; omega
+  rw [hfuel, Custom.addrLoop_overrun sockaddr_kinds_wf L as a _ 0 [] rest has ha (by omega) (by omega)]
+
+/-- UNDER-RUN: the message ends while the declared address region still expects a descriptor: BadLengthDescriptor -/
+theorem node_ann_truncated_region_rejected (hdr : List FieldTy) (hh : Custom.hdrOk hdr = true) (hv : List Val)
+    (hvv : validFixed hdr hv = true) (as : List SockAddr) (L : Nat)
+    (has : ∀ x ∈ as, x.valid sockAddrKinds = true) (hL : L < 2 ^ 16) (hin : Custom.regionLen sockAddrKinds as < L) :
+    Custom.decodeNodeAnn sockAddrKinds hdr (encodeFixed hdr hv ++ (beEncode 2 L ++ Custom.encodeAddrs sockAddrKinds as)) =
+      .error .BadLengthDescriptor := by
+  obtain ⟨p1, _, _⟩ := Custom.hdrOk_parts hh
+  have hlen := Custom.length_le_regionLen as has
+  have hel := Custom.encodeAddrs_length sockAddrKinds as
+  simp only [Custom.decodeNodeAnn, decodeFixed_roundtrip hdr hv _ p1 hvv, readUint_encode, Nat.mod_eq_of_lt (show L < 256 ^ 2 by omega)]
+  have hfuel : (Custom.encodeAddrs sockAddrKinds as).length + 1 = as.length + ((Custom.regionLen sockAddrKinds as - as.length) + 1) := by
+    rw [hel]; omega
+  rw [hfuel, Custom.addrLoop_truncated sockaddr_kinds_wf L as _ 0 [] has (by omega)]
+
+/-- … and in general: no byte string that is shorter than header + addrlen field + declared `addrlen` is accepted, whatever it
+    contains (never a partially filled message for a truncated input) -/
+theorem node_ann_short_input_rejected (hdr : List FieldTy) (hh : Custom.hdrOk hdr = true) (hv : List Val)
+    (hvv : validFixed hdr hv = true) (L : Nat) (hL : L < 2 ^ 16) (tail : Bytes) (hshort : tail.length < L) :
+    ∃ e, Custom.decodeNodeAnn sockAddrKinds hdr (encodeFixed hdr hv ++ (beEncode 2 L ++ tail)) = .error e := by
+  cases hres : Custom.decodeNodeAnn sockAddrKinds hdr (encodeFixed hdr hv ++ (beEncode 2 L ++ tail)) with
+  | error e => exact ⟨e, rfl⟩
+  | ok m => have := Custom.nodeAnn_input_long_enough sockaddr_kinds_wf hdr hh hv hvv L hL tail m hres; omega
+
+-- non-vacuity (header: no features, timestamp 1, node id, rgb, alias): one IPv4 descriptor, then the unknown type 0xff as excess address data
+example : Custom.decodeNodeAnn sockAddrKinds Custom.nodeAnnHeader
+    ([0, 0, 0, 0, 0, 1] ++ List.replicate 33 2 ++ [10, 11, 12] ++ List.replicate 32 1 ++ [0, 10, 1, 9, 9, 9, 9, 0x26, 0x07, 0xff, 5, 6, 0xee]) =
+    .ok ⟨[.bytes [], .nat 1, .bytes (List.replicate 33 2), .bytes [10, 11, 12], .bytes (List.replicate 32 1)],
+         [⟨1, [.bytes [9, 9, 9, 9], .nat 9735]⟩], [0xff, 5, 6], [0xee]⟩ := by decide
+-- declared addrlen one less than the descriptor occupies (the off-by-one of a dropped `1 +`): rejected
+example : Custom.decodeNodeAnn sockAddrKinds Custom.nodeAnnHeader
+    ([0, 0, 0, 0, 0, 1] ++ List.replicate 33 2 ++ [10, 11, 12] ++ List.replicate 32 1 ++ [0, 6, 1, 9, 9, 9, 9, 0x26, 0x07, 0xee]) =
+    .error .BadLengthDescriptor := by decide
+example : Custom.decodeNodeAnn sockAddrKinds Custom.nodeAnnHeader
+    ([0, 0, 0, 0, 0, 1] ++ List.replicate 33 2 ++ [10, 11, 12] ++ List.replicate 32 1 ++ [0, 8, 1, 9, 9, 9, 9, 0x26, 0x07]) =
+    .error .BadLengthDescriptor := by decide   -- declared one more than there is
+
+/-- the translated arithmetic of both encoded-id-list codecs says what the theorems need (each field by `rfl` on the generated
+    definitions: breaks when the source changes `encoding_len == 0 || (encoding_len - 1) % 8 != 0`, the element count, the
+    writer's `1 + len * 8`, or the accepted / written `EncodingType`) -/
+theorem scid_rules_spec : queryShortChannelIdsRules.Spec ∧ replyChannelRangeRules.Spec :=
+  ⟨⟨fun _ => rfl, fun _ => rfl, fun _ => rfl, rfl, by decide⟩, ⟨fun _ => rfl, fun _ => rfl, fun _ => rfl, rfl, by decide⟩⟩
+
+/-- QueryShortChannelIds / ReplyChannelRange round-trip (≤ 8191 ids: `1 + 8·len` must fit the u16), whatever follows the message -/
+theorem scid_list_roundtrip (rules : ScidRules) (hr : rules.Spec) (hdr : List FieldTy) (hh : Custom.hdrOk hdr = true)
+    (m : Custom.ScidMsg) (hm : m.wf hdr = true) (rest : Bytes) :
+    Custom.decodeScidMsg rules hdr (Custom.encodeScidMsg rules hdr m ++ rest) = .ok (m, rest) :=
+  Custom.scid_roundtrip' hr hdr hh m hm rest
+
+/-- what the decoder consumed is exactly the canonical encoding of the (well-formed) message it returns; the rest is untouched -/
+theorem scid_list_decode_canonical (rules : ScidRules) (hr : rules.Spec) (hdr : List FieldTy) (hh : Custom.hdrOk hdr = true)
+    (b : Bytes) (m : Custom.ScidMsg) (rest : Bytes) (h : Custom.decodeScidMsg rules hdr b = .ok (m, rest)) :
+    b = Custom.encodeScidMsg rules hdr m ++ rest ∧ m.wf hdr = true := Custom.scid_exact' hr hdr hh b m rest h
+
+theorem scid_list_reencode_stable (rules : ScidRules) (hr : rules.Spec) (hdr : List FieldTy) (hh : Custom.hdrOk hdr = true)
+    (b : Bytes) (m : Custom.ScidMsg) (rest : Bytes) (h : Custom.decodeScidMsg rules hdr b = .ok (m, rest)) :
+    Custom.decodeScidMsg rules hdr (Custom.encodeScidMsg rules hdr m) = .ok (m, []) := by
+  have := scid_list_roundtrip rules hr hdr hh m (scid_list_decode_canonical rules hr hdr hh b m rest h).2 []
+  simpa using this
+
+/-- the declared `encoding_len` is exactly 1 (the encoding type) + the bytes of the ids that were returned -/
+theorem scid_list_declared_length_exact (rules : ScidRules) (hr : rules.Spec) (hdr : List FieldTy) (hh : Custom.hdrOk hdr = true)
+    (b : Bytes) (m : Custom.ScidMsg) (rest : Bytes) (h : Custom.decodeScidMsg rules hdr b = .ok (m, rest)) :
+    ∃ L, L < 2 ^ 16 ∧ L = 1 + (Custom.encodeU64s m.scids).length ∧
+      b = encodeFixed hdr m.hdr ++ (beEncode 2 L ++ (beEncode 1 rules.written ++ Custom.encodeU64s m.scids)) ++ rest := by
+  obtain ⟨e, hw⟩ := scid_list_decode_canonical rules hr hdr hh b m rest h
+  obtain ⟨_, _, h3⟩ := Custom.scid_wf_parts hw
+  refine ⟨1 + m.scids.length * 8, by omega, by rw [Custom.encodeU64s_length]; omega, ?_⟩
+  rw [e, Custom.encodeScidMsg, hr.encLen]
+
+/-- a declared `encoding_len` that is 0 or not ≡ 1 (mod 8) is InvalidValue, whatever follows -/
+theorem scid_list_bad_length_rejected (rules : ScidRules) (hr : rules.Spec) (hdr : List FieldTy) (hh : Custom.hdrOk hdr = true)
+    (hv : List Val) (hvv : validFixed hdr hv = true) (L : Nat) (hL : L < 2 ^ 16) (hbad : L = 0 ∨ (L - 1) % 8 ≠ 0) (tail : Bytes) :
+    Custom.decodeScidMsg rules hdr (encodeFixed hdr hv ++ (beEncode 2 L ++ (beEncode 1 rules.accepted ++ tail))) = .error .InvalidValue := by
+  obtain ⟨p1, _, _⟩ := Custom.hdrOk_parts hh
+  have hb := hr.byte
+  have hs := hr.same
+  have hbl : (decide (L = 0) || decide ((L - 1) % 8 ≠ 0)) = true := by simpa using hbad
+  simp only [Custom.decodeScidMsg, decodeFixed_roundtrip hdr hv _ p1 hvv, readUint_encode, Nat.mod_eq_of_lt (show L < 256 ^ 2 by omega),
+    Nat.mod_eq_of_lt (show rules.accepted < 256 ^ 1 by omega), hr.badLen, hbl]
+  simp
+
+/-- any encoding type other than the accepted one (Uncompressed) is UnsupportedCompression — checked before the length -/
+theorem scid_list_compression_rejected (rules : ScidRules) (hdr : List FieldTy) (hh : Custom.hdrOk hdr = true)
+    (hv : List Val) (hvv : validFixed hdr hv = true) (L ty : Nat) (hL : L < 2 ^ 16) (hty : ty < 256) (hne : ty ≠ rules.accepted) (tail : Bytes) :
+    Custom.decodeScidMsg rules hdr (encodeFixed hdr hv ++ (beEncode 2 L ++ (beEncode 1 ty ++ tail))) = .error .UnsupportedCompression := by
+  obtain ⟨p1, _, _⟩ := Custom.hdrOk_parts hh
+  simp only [Custom.decodeScidMsg, decodeFixed_roundtrip hdr hv _ p1 hvv, readUint_encode, Nat.mod_eq_of_lt (show L < 256 ^ 2 by omega),
+    Nat.mod_eq_of_lt (show ty < 256 ^ 1 by omega)]
+  simp [hne]
+
+/-- fewer id bytes than the declared length announces: ShortRead -/
+theorem scid_list_truncated_rejected (rules : ScidRules) (hr : rules.Spec) (hdr : List FieldTy) (hh : Custom.hdrOk hdr = true)
+    (hv : List Val) (hvv : validFixed hdr hv = true) (L : Nat) (hL : L < 2 ^ 16) (hok : L ≠ 0 ∧ (L - 1) % 8 = 0) (tail : Bytes)
+    (hshort : tail.length < L - 1) :
+    Custom.decodeScidMsg rules hdr (encodeFixed hdr hv ++ (beEncode 2 L ++ (beEncode 1 rules.accepted ++ tail))) = .error .ShortRead := by
+  obtain ⟨p1, _, _⟩ := Custom.hdrOk_parts hh
+  have hb := hr.byte
+  have hs := hr.same
+  have hbl : (decide (L = 0) || decide ((L - 1) % 8 ≠ 0)) = false := by simp [hok.1, hok.2]
+  simp only [Custom.decodeScidMsg, decodeFixed_roundtrip hdr hv _ p1 hvv, readUint_encode, Nat.mod_eq_of_lt (show L < 256 ^ 2 by omega),
+    Nat.mod_eq_of_lt (show rules.accepted < 256 ^ 1 by omega), hr.badLen, hbl, hr.count,
+    Custom.readU64s_short ((L - 1) / 8) tail (by omega)]
+  simp
+example : Custom.decodeScidMsg queryShortChannelIdsRules Custom.queryScidHeader (List.replicate 32 7 ++ [0, 9, 0] ++ beEncode 8 5 ++ [0xaa]) =
+    .ok (⟨[.bytes (List.replicate 32 7)], [5]⟩, [0xaa]) := by decide
+example : Custom.decodeScidMsg queryShortChannelIdsRules Custom.queryScidHeader (List.replicate 32 7 ++ [0, 10, 0] ++ beEncode 8 5 ++ [0xaa]) =
+    .error .InvalidValue := by decide
+example : Custom.decodeScidMsg replyChannelRangeRules Custom.replyRangeHeader (List.replicate 32 7 ++ [0, 0, 0, 1, 0, 0, 0, 2, 1, 0, 9, 1] ++ beEncode 8 5) =
+    .error .UnsupportedCompression := by decide
+example : Custom.decodeScidMsg replyChannelRangeRules Custom.replyRangeHeader (List.replicate 32 7 ++ [0, 0, 0, 1, 0, 0, 0, 2, 2, 0, 1, 0]) =
+    .error .InvalidValue := by decide   -- sync_complete is a bool
+
+/-! ### Init -/
+
+/-- the Init schema IS what the reader / writer bodies declare: two feature vectors, TLV 1 `networks` (ChainHashes to the end of the
+    record), TLV 3 `remote_network_address` (a SocketAddress) -/
+theorem init_schema_matches_source :
+    (⟨Custom.initSchema.name, Custom.initSchema.fixedNames, Custom.initSchema.fixed, Custom.initSchema.tlvs.map (fun f => (f.typ, f.ty)), false, none⟩ : HandLayout) = initPinned ∧
+    Custom.initSchema.tlvs.map (·.name) = initTlvNamesPinned := by decide
+
+/-- Init's fixed part + TLV stream is a well-formed, HighZeroBytesDropped-free schema: every generic theorem above (TLV order, unknown
+    even ⇒ rejected, unknown odd ⇒ ignored, framing, `decode_after_fixed`, …) applies to it -/
+theorem init_schema_wf : Custom.initSchema.wf = true ∧ Custom.initSchema.plain = true := by decide
+
+/-- the "global" vector the writer emits is contained in the full vector: OR-ing it back changes nothing -/
+theorem init_global_features_absorbed (f : Bytes) : Custom.orBE f (Custom.first13 f) = f := Custom.orBE_first13 f
+
+/-- decode ∘ encode = id on every Init (feature vector < 2^16 bytes, TLV values valid) -/
+theorem init_roundtrip (m : Custom.InitMsg) (hm : m.wf = true) : Custom.decodeInit (Custom.encodeInit m) = .ok m :=
+  Custom.init_roundtrip' init_schema_wf.1 m hm
+
+/-- whatever decodes is a well-formed Init, and re-encoding it yields bytes that decode to the same Init (the split into
+    global / local feature vectors of the input is NOT preserved — only their union is) -/
+theorem init_reencode_stable (b : Bytes) (m : Custom.InitMsg) (h : Custom.decodeInit b = .ok m) :
+    m.wf = true ∧ Custom.decodeInit (Custom.encodeInit m) = .ok m := by
+  have hw := Custom.init_decode_wf init_schema_wf.1 init_schema_wf.2 b m h
+  exact ⟨hw, init_roundtrip m hw⟩
+
+/-- the decoder is the schema decoder followed by the OR of the two vectors (no other outcome) -/
+theorem init_decode_shape (b : Bytes) :
+    (∃ e, Custom.initSchema.decode b = .error e ∧ Custom.decodeInit b = .error e) ∨
+    (∃ g f tlvs, Custom.initSchema.decode b = .ok ⟨[.bytes g, .bytes f], tlvs⟩ ∧ Custom.decodeInit b = .ok ⟨Custom.orBE f g, tlvs⟩) := by
+  cases hd : Custom.initSchema.decode b with
+  | error e => exact .inl ⟨e, rfl, by simp [Custom.decodeInit, hd]⟩
+  | ok v =>
+    have hv := schema_decode_valid Custom.initSchema b v init_schema_wf.1 init_schema_wf.2 hd
+    obtain ⟨fx, tlvs⟩ := v
+    simp only [MsgVal.valid, Custom.initSchema, Bool.and_eq_true] at hv
+    match fx, hv.1 with
+    | [.bytes g, .bytes f], _ => exact .inr ⟨g, f, tlvs, rfl, by simp [Custom.decodeInit, hd]⟩
+    | [], h => simp [validFixed] at h
+    | [_], h => simp [validFixed] at h
+    | _ :: _ :: _ :: _, h => simp [validFixed] at h
+    | [.nat _, _], h => simp [validFixed, FieldTy.valid] at h
+    | [.unit, _], h => simp [validFixed, FieldTy.valid] at h
+    | [.pair _ _, _], h => simp [validFixed, FieldTy.valid] at h
+    | [.bytes _, .nat _], h => simp [validFixed, FieldTy.valid] at h
+    | [.bytes _, .unit], h => simp [validFixed, FieldTy.valid] at h
+    | [.bytes _, .pair _ _], h => simp [validFixed, FieldTy.valid] at h
+-- global 0x2002 (bits 1 and 13), local 0x01_0000 (bit 16), networks = one chain hash, address = IPv4
+example : Custom.decodeInit ([0, 2, 0x20, 0x02, 0, 3, 1, 0, 0] ++ [1, 32] ++ List.replicate 32 6 ++ [3, 7, 1, 10, 0, 0, 1, 0x26, 0x07]) =
+    .ok ⟨[1, 0x20, 0x02], [some (.pair (.bytes (List.replicate 32 6)) .unit), some (.pair (.nat 1) (.pair (.bytes [10, 0, 0, 1]) (.pair (.nat 9735) .unit)))]⟩ := by decide
+example : Custom.encodeInit ⟨[1, 0xe0, 0x02], [none, none]⟩ = [0, 2, 0x20, 0x02, 0, 3, 1, 0xe0, 0x02] := by decide   -- bits 14, 15 are not "global"
+example : Custom.decodeInit ([0, 0, 0, 0] ++ [1, 33] ++ List.replicate 33 6) = .error .ShortRead := by decide      -- 33 bytes are not whole chain hashes
+example : Custom.decodeInit ([0, 0, 0, 0] ++ [3, 2, 9, 9]) = .error .UnknownVersion := by decide                   -- unknown address type in the TLV
+example : Custom.decodeInit ([0, 0, 0, 0] ++ [3, 8, 1, 10, 0, 0, 1, 0x26, 0x07, 0]) = .error .InvalidValue := by decide   -- address does not fill its record
+example : Custom.decodeInit ([0, 0, 0, 0] ++ [2, 0]) = .error .UnknownRequiredFeature := by decide
 
 /-! ## wire level -/
 
